@@ -30,7 +30,9 @@ EXTRA_VALUES = ["Color.RED", "[Color.RED, Color.BLUE]", "Color", "AbcImpl()", "A
                 # classes that are falsy (metaclass __len__ / __bool__) and typing.TypedDict classes, as instances and as class objects
                 "OD.Registry()", "OD.Registry", "OD.Flagless()", "OD.Flagless", "[OD.Registry(), OD.Flagless()]", "OD.Movie", "OD.Options", "OD.Api.Payload", "[OD.Movie, OD.Options]", "(OD.Api.Payload, 1)", "{'a': OD.Movie}",
                 # dict keys that are parameter names of the TypedDict constructor; PEP 585 / 604 alias OBJECTS as values
-                "{'total': 3, 'items': [0]}", "{'fields': 1, 'typename': 2, 'self': 3}", "[{'total': False}]", "list[int]", "int | None", "[list[int], dict[str, int]]", "{'a': int | str}", "(tuple[int, ...],)"]
+                "{'total': 3, 'items': [0]}", "{'fields': 1, 'typename': 2, 'self': 3}", "[{'total': False}]", "list[int]", "int | None", "[list[int], dict[str, int]]", "{'a': int | str}", "(tuple[int, ...],)",
+                # classes of a submodule whose name is shadowed by a function in the package namespace
+                "SH.Canvas()", "SH.Canvas.Cell()", "SH.Canvas", "[SH.Canvas(), SH.Canvas.Cell()]", "{'a': SH.Canvas.Cell()}"]
 
 
 def _ns():
@@ -41,6 +43,9 @@ def _ns():
     ns = dict(V.NS)
     ns["H"] = H
     ns["OD"] = OD
+    import importlib
+
+    ns["SH"] = importlib.import_module("vfx.shadow.render")
     return ns
 
 
@@ -115,7 +120,14 @@ def fixture_funcs() -> List[Tuple[str, Any]]:
         ("Base.prop", S.Base.prop.fget), ("wrapped", S.wrapped.__wrapped__), ("wrapped2", S.wrapped2.__wrapped__.__wrapped__),
         ("Outer.Inner.imeth", S.Outer.Inner.imeth), ("Outer.Inner.ismeth", S.Outer.Inner.ismeth), ("Outer.Inner.Deep.dmeth", S.Outer.Inner.Deep.dmeth),
         ("genfunc", S.genfunc), ("lam", S.lam), ("cached_func", S.cached_func.__wrapped__), ("class_decorated", S.class_decorated.__wrapped__), ("Deco.dmeth", S.Deco.dmeth.__wrapped__), ("Deco.dcmeth", S.Deco.dcmeth.__func__.__wrapped__),
-    ]
+    ] + _shadow_funcs()
+
+
+def _shadow_funcs() -> List[Tuple[str, Any]]:
+    import importlib
+
+    SH = importlib.import_module("vfx.shadow.render")
+    return [("shadow.render", SH.render), ("shadow.Canvas.blank", SH.Canvas.blank.__func__), ("shadow.gen_cells", SH.gen_cells)]
 
 
 def check_trace(fname: str, func, args: Dict[str, Any], ret, yld, mods) -> Optional[Tuple[str, str, str]]:
